@@ -21,7 +21,8 @@ BOUNDS = {
     'quick': 'finite chains L<=3, MPS chi<=2 (d=2), MPO bond dimension <=3 (+ markers), spin-1/2 and spinless-fermion sites '
              'with trivial / U(1) charges; complex entries on the listed tensors (all tensors for the pure MPO algebra, '
              'a stated subset for the <bra|H|ket> networks), forms A/B/C/Th; term lists of <=5 terms with symbolic real/complex strengths',
-    'thorough': 'L<=4, chi<=2 (3 on charged legs), MPO bond dimension <=4, more complex-pattern / marker-position / form combinations',
+    'thorough': 'L<=4, chi<=2 (3 on one charged bond), MPO bond dimension <=4, more complex-pattern / marker-position / form combinations '
+                '(L=3: bra and ket complex on all sites with real W; L=4 spin: up to three complex tensors with markers)',
 }
 OUTSIDE = ('apply_zipup / VariationalApplyMPO accuracy, expectation_value_TM/_power (iterative), make_U_I/II order claims, infinite MPOs; '
            'is_hermitian/is_equal on concrete MPOs (plain evaluation); dtype of freshly allocated containers; '
@@ -112,12 +113,14 @@ def _vspec(kind, conserve, L, chi):
     return _VSPEC[(kind, conserve, L)]
 
 
-def _model_mpo(kind, conserve, L):
+def _model_mpo(kind, conserve, L, tmpl=None):
     """a concretely built MPO (legs with charges, markers) used as the shape template of symbolic-W MPOs"""
     from tenpy.networks.terms import TermList
     from tenpy.networks.mpo import MPOGraph
     sites = _sites(kind, conserve, L)
-    if kind == 'fermion':
+    if tmpl == 'hop1':  # smallest charged template: one hopping direction + on-site terms (one non-marker state per bond)
+        terms = [[('Cd', i), ('C', i + 1)] for i in range(L - 1)] + [[('N', i)] for i in range(L)]
+    elif kind == 'fermion':
         terms = [[('Cd', i), ('C', i + 1)] for i in range(L - 1)] + [[('Cd', i + 1), ('C', i)] for i in range(L - 1)]
         terms += [[('N', i)] for i in range(L)] + [[('N', 0), ('N', L - 1)]]
         if L > 2:
@@ -129,13 +132,13 @@ def _model_mpo(kind, conserve, L):
     return sites, MPOGraph.from_term_list(tl, sites, 'finite').build_MPO()
 
 
-def _mpo(ctx, name, kind, conserve, L, D, markers, cplx, swap=False):
-    """symbolic-W MPO: trivial charges -> bond dimensions (2, D.., 2); with charges -> legs of a model MPO"""
+def _mpo(ctx, name, kind, conserve, L, D, markers, cplx, swap=False, bd=2, tmpl=None):
+    """symbolic-W MPO: trivial charges -> bond dimensions (bd, D.., bd); with charges -> legs of a model MPO"""
     if conserve in (None, 'None'):
         sites = _sites(kind, None, L)
         IdL, IdR = ([1] * (L + 1), [0] * (L + 1)) if swap else (None, None)
-        return sites, F.sym_mpo(ctx, name, sites, [2] + [D] * (L - 1) + [2], markers=markers, cplx=cplx, IdL=IdL, IdR=IdR)
-    sites, H0 = _model_mpo(kind, conserve, L)
+        return sites, F.sym_mpo(ctx, name, sites, [bd] + [D] * (L - 1) + [bd], markers=markers, cplx=cplx, IdL=IdL, IdR=IdR)
+    sites, H0 = _model_mpo(kind, conserve, L, tmpl)
     return sites, F.sym_mpo(ctx, name, sites, like=H0, markers=markers, cplx=cplx)
 
 
@@ -303,10 +306,10 @@ def dagger_case(ctx, kind='spin', conserve=None, L=3, D=3, markers=True, cplx=Tr
     ctx.prove(Ah.explicit_plus_hc is True and A.H.is_hermitian() is True, 'explicit_plus_hc: flag kept, is_hermitian() True')
 
 
-def overlap_case(ctx, kind='spin', conserve=None, L=2, DA=3, DB=2, markers=True, cplx=True, hcA=False, hcB=False, distance=False):
+def overlap_case(ctx, kind='spin', conserve=None, L=2, DA=3, DB=2, markers=True, cplx=True, hcA=False, hcB=False, distance=False, bd=2):
     """overlap == Frobenius product Tr(A^dagger B) of the represented operators; distance / is_equal decide with exactly that"""
-    sites, A = _mpo(ctx, 'a', kind, conserve, L, DA, markers, cplx)
-    _, B = _mpo(ctx, 'b', kind, conserve, L, DB, markers, cplx, swap=markers)
+    sites, A = _mpo(ctx, 'a', kind, conserve, L, DA, markers, cplx, bd=bd)
+    _, B = _mpo(ctx, 'b', kind, conserve, L, DB, markers, cplx, swap=markers, bd=bd)
     A.H.explicit_plus_hc, B.H.explicit_plus_hc = bool(hcA), bool(hcB)
     dA, dB = A.dense(), B.dense()
     if hcA:
@@ -373,8 +376,8 @@ def prefactor_case(ctx, kind='spin', conserve=None, L=3, D=3, cplx=True, swap=Fa
     _unchanged(ctx, A, 'prefactor')
 
 
-def plus_identity_case(ctx, kind='spin', conserve=None, L=3, D=3, cplx=True, swap=False, where=(0, ), cplx_ab=True):
-    sites, A = _mpo(ctx, 'a', kind, conserve, L, D, True, cplx, swap)
+def plus_identity_case(ctx, kind='spin', conserve=None, L=3, D=3, cplx=True, swap=False, where=(0, ), cplx_ab=True, tmpl=None):
+    sites, A = _mpo(ctx, 'a', kind, conserve, L, D, True, cplx, swap, tmpl=tmpl)
     N = len(where)
     alpha = ctx.num('alpha', cplx_ab)
     # beta ** (1/N): for N > 1 the documented real positive beta (a root of a symbolic complex number is outside the engine)
@@ -423,32 +426,267 @@ def apply_naively_case(ctx, kind='spin', conserve=None, L=3, chi=2, D=2, markers
     except NotImplementedError:
         ctx.prove(True, 'apply_naively with explicit_plus_hc raises NotImplementedError')
 
+# ---------------------------------------------------------------------------------------------
+# effective Hamiltonians of mps_common.py
+def _sym_like(ctx, name, A, cplx):
+    from catalogue import build as Bd
+    return Bd.tensor(ctx, name, A.legs, A.qtotal, cplx=cplx, labels=A.get_leg_labels())
+
+
+def _split_all(a):
+    while any(l.startswith('(') for l in a.get_leg_labels()):
+        a = a.split_legs()
+    return a
+
+
+def _own_heff(LPd, Wds, RPd):
+    """dense effective Hamiltonian as a tensor with axes (vL', p0', [p1'], vR' ; vL, p0, [p1], vR): primed = output (bra side)"""
+    t = LPd  # (a', w, a)
+    for Wd in Wds:
+        t = np.tensordot(t, Wd, axes=[[1], [0]])  # (..., wR, p, p*) with w removed from position 1
+        t = np.moveaxis(t, -3, 1)  # wR back to position 1
+    t = np.tensordot(t, RPd, axes=[[1], [1]])  # a', a, (p,p*)..., b', b
+    n = len(Wds)
+    # current axes: a', a, p0, p0*, [p1, p1*], b', b
+    out_axes = [0] + [2 + 2 * k for k in range(n)] + [2 + 2 * n]
+    in_axes = [1] + [3 + 2 * k for k in range(n)] + [3 + 2 * n]
+    return t.transpose(out_axes + in_axes)
+
+
+def _apply(Hd, th, adjoint=False):
+    n = th.ndim
+    if adjoint:
+        return np.tensordot(F.conj_obj(Hd), th, axes=[list(range(n)), list(range(n))])
+    return np.tensordot(Hd, th, axes=[list(range(n, 2 * n)), list(range(n))])
+
+
+def effH_case(ctx, which='one', combine=False, move_right=True, kind='spin', conserve=None, L=3, i0=1, chi=2, D=2, cplx=True,
+              cpsi=False, update=True):
+    """OneSiteH / TwoSiteH / ZeroSiteH with symbolic LP, RP, W and theta: matvec == to_matrix . theta == dense projection,
+    adjoint == conjugate transpose, update_LP / update_RP == the environment recursion"""
+    from tenpy.networks.mpo import MPOEnvironment
+    from tenpy.algorithms import mps_common as MC
+    n = {'zero': 0, 'one': 1, 'two': 2}[which]
+    sites, Hm = _mpo(ctx, 'w', kind, conserve, L, D, False, cplx)
+    nA = i0 + (1 if (n == 2 or (n == 1 and move_right)) else 0)
+    forms = ['A'] * nA + ['B'] * (L - nA)
+    psi = F.sym_mps(ctx, 'k', sites, _vspec(kind, conserve, L, chi), cplx=cpsi, forms=forms, symS=False)
+    env = MPOEnvironment(psi.psi, Hm.H, psi.psi)
+    iR = i0 + n - 1  # RP is the part strictly right of site iR
+    LP = _sym_like(ctx, 'lp', env.get_LP(i0, store=False), cplx)
+    RP = _sym_like(ctx, 'rp', env.get_RP(iR, store=False), cplx)
+    env.set_LP(i0, LP.copy(deep=True), age=i0)
+    env.set_RP(iR, RP.copy(deep=True), age=L - 1 - iR)
+    LPd, RPd = _nd(LP, ['vR*', 'wR', 'vR']), _nd(RP, ['vL*', 'wL', 'vL'])
+    Wds = [Hm.W[i0 + k] for k in range(n)]
+    Hd = _own_heff(LPd, Wds, RPd)
+    if which == 'zero':
+        eff = MC.ZeroSiteH(env, i0)
+        th0 = None
+        lab = ['vL', 'vR']
+        legs = [LP.get_leg('vR').conj(), RP.get_leg('vL').conj()]
+        from catalogue import build as Bd
+        theta = Bd.tensor(ctx, 'th', legs, None, cplx=cplx, labels=lab)
+    else:
+        eff = (MC.OneSiteH if which == 'one' else MC.TwoSiteH)(env, i0, combine=combine, move_right=move_right)
+        lab = ['vL'] + [f'p{k}' for k in range(n)] + ['vR']
+        theta = _sym_like(ctx, 'th', psi.psi.get_theta(i0, n), cplx)
+    thd = _nd(theta, lab)
+    ctx.note('theta_entries', int(thd.size))
+    ctx.prove(eff.N == thd.size and eff.length == n, 'N == size of theta, length')
+    # matvec
+    th_c = eff.combine_theta(theta) if which != 'zero' else theta
+    ctx.prove(th_c.get_leg_labels() == list(eff.acts_on), 'combine_theta gives the labels of acts_on')
+    out = eff.matvec(th_c)
+    ctx.prove(out.get_leg_labels() == th_c.get_leg_labels(), 'matvec keeps the labels of theta')
+    ctx.prove_eq(_nd(_split_all(out), lab), _apply(Hd, thd), 'matvec(theta) == dense LP.W.RP.theta')
+    # to_matrix
+    M = eff.to_matrix()
+    ctx.prove(M.rank == 2 and M.shape == (thd.size, thd.size), 'to_matrix is N x N')
+    Ms = _split_all(M)
+    lab_out = ['vR*'] + [f'p{k}' for k in range(n)] + ['vL*']
+    lab_in = ['vR'] + [f'p{k}*' for k in range(n)] + ['vL']
+    ctx.prove_eq(_nd(Ms, lab_out + lab_in), Hd, 'to_matrix() == dense effective Hamiltonian (after splitting the pipes)')
+    # to_matrix . theta through the pipes tenpy made
+    th_m = th_c
+    if th_m.rank > 1:
+        th_m = th_m.combine_legs(list(range(th_m.rank)), pipes=[M.get_leg(1).conj()])
+    mv = _split_all(npc_tensordot(M, th_m))
+    mv = mv.replace_labels(lab_out, lab)
+    ctx.prove_eq(_nd(mv, lab), _apply(Hd, thd), 'to_matrix() . theta == matvec(theta)')
+    # adjoint
+    try:
+        adj = eff.adjoint()
+    except AttributeError as e:
+        ctx.fail('adjoint() raises AttributeError', str(e)[:120])
+        adj = None
+    if adj is not None:
+        out = adj.matvec(th_c)
+        ctx.prove_eq(_nd(_split_all(out), lab), _apply(Hd, thd, adjoint=True), 'adjoint().matvec(theta) == Heff^dagger theta')
+        Ma = _split_all(adj.to_matrix())
+        k = len(lab)
+        Hdag = F.conj_obj(Hd).transpose(list(range(k, 2 * k)) + list(range(k)))
+        ctx.prove_eq(_nd(Ma, lab_out + lab_in), Hdag, 'adjoint().to_matrix() == conjugate transpose')
+        ctx.prove_eq(_nd(_split_all(eff.matvec(th_c)), lab), _apply(Hd, thd), 'matvec of the original unchanged by adjoint()')
+    if which == 'zero':
+        e2 = MC.ZeroSiteH.from_LP_RP(LP.copy(deep=True), RP.copy(deep=True), i0)
+        ctx.prove_eq(_nd(e2.matvec(theta), lab), _apply(Hd, thd), 'ZeroSiteH.from_LP_RP matvec')
+        return
+    if which == 'one' and not combine:
+        e2 = MC.OneSiteH.from_LP_W0_RP(LP.copy(deep=True), Hm.H.get_W(i0).copy(deep=True), RP.copy(deep=True), i0)
+        ctx.prove_eq(_nd(e2.matvec(theta), lab), _apply(Hd, thd), 'OneSiteH.from_LP_W0_RP matvec')
+    if not update:
+        return
+    # update_LP / update_RP: equal to the recursion of the environment with the A / B tensor of psi
+    if (n == 2 or move_right) and i0 + 1 <= L - 1:
+        U = psi.psi.get_B(i0, 'A')
+        Uc = U.combine_legs(['vL', 'p'], pipes=eff.pipeL) if combine else U
+        eff.update_LP(env, i0 + 1, Uc)
+        Ud = psi.gamma_form(i0, 1., 0.)
+        t = np.tensordot(LPd, Ud, axes=[[2], [0]])  # a' w s' b
+        t = np.tensordot(t, Hm.W[i0], axes=[[1, 2], [0, 3]])  # a' b v s
+        t = np.tensordot(F.conj_obj(Ud), t, axes=[[0, 1], [0, 3]])  # b' b v
+        ctx.prove_eq(_nd(env.get_LP(i0 + 1), ['vR*', 'wR', 'vR']), t.transpose(0, 2, 1), 'update_LP == LP.W.A.A* (dense)')
+        ctx.prove(env.get_LP_age(i0 + 1) == i0 + 1, 'update_LP: age')
+    if (n == 2 or not move_right) and iR - 1 >= 0:
+        V = psi.psi.get_B(iR, 'B')
+        Vc = V.combine_legs(['p', 'vR'], pipes=eff.pipeR) if combine else V
+        eff.update_RP(env, iR - 1, Vc)
+        Vd = psi.gamma_form(iR, 0., 1.)
+        t = np.tensordot(Vd, RPd, axes=[[2], [2]])  # a s' b' w
+        t = np.tensordot(t, Hm.W[iR], axes=[[3, 1], [1, 3]])  # a b' v s
+        t = np.tensordot(t, F.conj_obj(Vd), axes=[[1, 3], [2, 1]])  # a v a'
+        ctx.prove_eq(_nd(env.get_RP(iR - 1), ['vL*', 'wL', 'vL']), t.transpose(2, 1, 0), 'update_RP == B.W.RP.B* (dense)')
+        ctx.prove(env.get_RP_age(iR - 1) == L - iR, 'update_RP: age')
+
+
+def npc_tensordot(M, v):
+    import tenpy.linalg.np_conserved as npc
+    return npc.tensordot(M, v, axes=[1, 0])
+
+
+# ---------------------------------------------------------------------------------------------
+# MPOs from term lists with symbolic strengths
+_TERMSETS = {
+    'spin3': [[('Sz', 0)], [('Sz', 0), ('Sz', 1)], [('Sp', 0), ('Sm', 2)], [('Sx', 1), ('Sz', 2)], [('Sy', 2), ('Sx', 0)],
+              [('Sx', 0), ('Sx', 1), ('Sx', 2)]],
+    'spin3b': [[('Sz', 1)], [('Sp', 0), ('Sm', 1)], [('Sm', 0), ('Sp', 1)], [('Sz', 0), ('Sz', 2)], [('Sp', 1), ('Sm', 2)]],
+    'spin4': [[('Sz', 3)], [('Sp', 0), ('Sm', 3)], [('Sz', 1), ('Sz', 2)], [('Sx', 0), ('Sz', 1), ('Sx', 2), ('Sz', 3)], [('Sm', 1), ('Sp', 3)]],
+    'fermion3': [[('N', 1)], [('Cd', 0), ('C', 1)], [('Cd', 2), ('C', 0)], [('N', 0), ('N', 2)], [('C', 1), ('Cd', 2)]],
+    'fermion3hop': [[('Cd', 0), ('C', 1)], [('Cd', 1), ('C', 0)], [('Cd', 0), ('C', 2)], [('Cd', 2), ('C', 1)]],
+    'fermion3pair': [[('Cd', 0), ('Cd', 1)], [('C', 2), ('C', 0)], [('N', 1)], [('Cd', 0), ('N', 1), ('C', 2)]],
+    'fermion4': [[('Cd', 0), ('C', 3)], [('Cd', 3), ('C', 1)], [('N', 1), ('N', 2)], [('Cd', 0), ('Cd', 1), ('C', 3), ('C', 2)], [('N', 0)]],
+}
+_BASIS = {'spin': ['Id', 'Sp', 'Sm', 'Sz'], 'spinxyz': ['Id', 'Sx', 'Sy', 'Sz'], 'fermion': ['Id', 'JW', 'C', 'Cd']}
+
+
+def termlist_case(ctx, termset='spin3', kind='spin', conserve=None, cplx=False, roundtrip=None, chi=0, hermitian=False):
+    """MPOGraph.from_term_list(TermList(terms, symbolic strengths)).build_MPO() denotes sum_k strength_k * term_k, the terms
+    read with the harness's own Jordan-Wigner operators; prefactor() returns the strengths; to_TermList -> from_term_list
+    gives the same operator (round trip, strengths away from the cutoff)"""
+    from tenpy.networks.terms import TermList
+    from tenpy.networks.mpo import MPOGraph
+    terms = [list(map(tuple, t)) for t in _TERMSETS[termset]]
+    L = 1 + max(i for t in terms for _, i in t)
+    sites = _sites(kind, conserve, L)
+    st = [ctx.num(f's{k}', cplx) for k in range(len(terms))]
+    if roundtrip:
+        for x in st:
+            ctx.assume((x > 1.e-3) | (x < -1.e-3) if ctx.symbolic else abs(x) > 1.e-3)
+    arr = np.empty(len(st), dtype=object if ctx.symbolic else (complex if cplx else float))
+    for k, x in enumerate(st):
+        arr[k] = x
+    tl = TermList([list(t) for t in terms], arr)
+    H = MPOGraph.from_term_list(tl, sites, 'finite').build_MPO()
+    H.test_sanity()
+    tables = [F.own_ops(s) for s in sites]
+    O = None
+    for x, t in zip(st, terms):
+        m = F.own_term_dense(sites, t, tables) * x
+        O = m if O is None else O + m
+    dH = F.mpo_dense_of(H)
+    ctx.prove_eq(dH, O, 'dense(MPO from term list) == sum strength * own JW product')
+    ctx.prove(all(x is not None for x in H.IdL) and all(x is not None for x in H.IdR), 'IdL / IdR set on all bonds')
+    _sum_form_ok(ctx, H, 'term-list MPO')
+    ctx.note('mpo_chi_max', int(max(H.chi)))
+    # prefactor: coefficient of an operator string with traceless end operators == trace projection of the dense operator
+    # on that string (plain local matrices of the string, identities elsewhere)
+    traceless = {'Sz', 'Sp', 'Sm', 'Sx', 'Sy', 'C', 'Cd'}
+    done = set()
+    for x, t in zip(st, terms):
+        pos = [i for _, i in t]
+        if pos != sorted(set(pos)) or t[0][0] not in traceless or t[-1][0] not in traceless:
+            continue
+        ops = ['Id'] * (pos[-1] - pos[0] + 1)
+        for nm, i in t:
+            ops[i - pos[0]] = nm
+        if kind == 'fermion':  # the matrices between / on the left of fermionic operators carry JW
+            par = 0
+            for j in range(len(ops) - 1, -1, -1):
+                if ops[j] in ('C', 'Cd'):
+                    par ^= 1
+                elif par:
+                    ops[j] = 'JW' if ops[j] == 'Id' else ops[j]
+        if (pos[0], tuple(ops)) in done:
+            continue
+        done.add((pos[0], tuple(ops)))
+        mats = [tables[j][0]['Id'] for j in range(L)]
+        for k, nm in enumerate(ops):
+            mats[pos[0] + k] = tables[pos[0] + k][0][nm]
+        P = F.kron_all(mats)
+        want = np.sum(np.conj(P) * O) / np.sum(np.abs(P)**2)
+        ctx.prove_eq(_scalar(H.prefactor(pos[0], ops)), want, f'prefactor({pos[0]}, {ops}) == trace projection of the dense operator')
+        ctx.note('prefactor_strings')
+    if chi:
+        psi = F.sym_mps(ctx, 'k', sites, _vspec(kind, conserve, L, chi), cplx=True)
+        v = psi.dense()
+        ctx.prove_eq(_scalar(H.expectation_value(psi.psi)), F.sandwich(v, O, v), 'expectation_value == <psi| sum strength * term |psi>')
+    if hermitian:
+        Od = F.conj_obj(O).T
+        herm = H.is_hermitian()
+        dd = np.sum(F.conj_obj(O - Od) * (O - Od))
+        nn = 2 * np.sum(F.conj_obj(O) * O)
+        want = abs(dd.real) < 1.e-10 * abs(nn.real)
+        ctx.prove(want if herm else ctx.Not(want), 'is_hermitian() <=> |O - O^dagger|^2 < eps (|O|^2 + |O^dagger|^2) on the dense operator')
+        ctx.note('is_hermitian_True' if herm else 'is_hermitian_False')
+    if roundtrip:
+        tl2 = H.to_TermList(_BASIS[roundtrip])
+        ctx.note('roundtrip_terms', len(tl2.terms))
+        H2 = MPOGraph.from_term_list(tl2, sites, 'finite').build_MPO()
+        ctx.prove_eq(F.mpo_dense_of(H2), O, 'to_TermList -> from_term_list dense round trip')
+
 
 def CASES(tier, seed):
     cases = []
-    O = dict(max_paths=2000, max_wall_s=200, validate_paths=1, hard_timeout_s=230)
+    thorough = tier == 'thorough'
+    O = dict(max_paths=4000, max_wall_s=1500 if thorough else 700, validate_paths=1, hard_timeout_s=1700 if thorough else 800)
 
-    def add(fn, name, **params):
-        cases.append(dict(name=name, fn=fn, params=params, opts=dict(O)))
+    def add(fn, name, heavy=False, **params):
+        o = dict(O)
+        if heavy:
+            o['profile'] = False  # the call-profile hook (functions_encoded) is taken from the light cases of the same function
+        cases.append(dict(name=name, fn=fn, params=params, opts=o))
 
-    # <bra|H|ket>
+    # ---- <bra|H|ket>: MPOEnvironment, expectation value, variance
     add('env_case', 'env[spin,L=2,all complex,markers]', L=2, D=3, markers=True, cb=True, ck=True, cw=True)
     add('env_case', 'env[spin,L=2,all complex,no markers,forms A/B]', L=2, D=3, markers=False, cb=True, ck=True, cw=True,
         forms_b=['A', 'B'], forms_k=['B', 'A'])
-    add('env_case', 'env[spin,L=3,complex site 1,no markers]', L=3, D=3, markers=False, cb=[0, 1, 0], ck=[0, 1, 0], cw=[0, 1, 0])
-    add('env_case', 'env[spin,L=3,complex bra0 ket2 W0,markers swapped]', L=3, D=3, markers=True, cb=[1, 0, 0], ck=[0, 0, 1],
-        cw=[1, 0, 0], swap=True)
-    add('env_case', 'env[spin,L=3,complex bra2 ket0 W2,forms Th/C,plus_hc]', L=3, D=2, markers=True, cb=[0, 0, 1], ck=[1, 0, 0],
-        cw=[0, 0, 1], forms_b=['A', 'Th', 'B'], forms_k=['C', 'B', 'A'], plus_hc=True)
+    add('env_case', 'env[spin,L=3,complex site 1,no markers]', heavy=True, L=3, D=3, markers=False, cb=[0, 1, 0], ck=[0, 1, 0],
+        cw=[0, 1, 0], check_env=False)
+    add('env_case', 'env[spin,L=3,complex bra0 ket2 W0,markers swapped]', heavy=True, L=3, D=3, markers=True, cb=[1, 0, 0],
+        ck=[0, 0, 1], cw=[1, 0, 0], swap=True)
+    add('env_case', 'env[spin,L=3,complex bra2 ket0 W2,forms Th/C,plus_hc]', heavy=True, L=3, D=2, markers=True, cb=[0, 0, 1],
+        ck=[1, 0, 0], cw=[0, 0, 1], forms_b=['A', 'Th', 'B'], forms_k=['C', 'B', 'A'], plus_hc=True)
     add('env_case', 'env[fermion N,L=3,all complex]', kind='fermion', conserve='N', L=3, markers=True, cb=True, ck=True, cw=True)
     add('expval_case', 'expval[spin,L=2,complex]', L=2, D=3, markers=True, cp=True, cw=True)
-    add('expval_case', 'expval[spin,L=3,psi complex site 1,forms]', L=3, D=2, markers=False, cp=[0, 1, 0], cw=False,
+    add('expval_case', 'expval[spin,L=3,psi complex site 1,forms]', heavy=True, L=3, D=2, markers=False, cp=[0, 1, 0], cw=False,
         forms=['A', 'B', 'B'])
     add('expval_case', 'expval[fermion N,L=3,complex,plus_hc]', kind='fermion', conserve='N', L=3, markers=True, cp=True, cw=True,
         plus_hc=True)
-    add('variance_case', 'variance[spin,L=2,psi complex]', L=2, D=2, cp=True, cw=False)
-    add('variance_case', 'variance[fermion N,L=3,complex]', kind='fermion', conserve='N', L=3, markers=True, cp=True, cw=True)
-    # MPO algebra
+    add('variance_case', 'variance[spin,L=2,psi complex site 0]', L=2, D=2, cp=[1, 0], cw=False)
+    add('variance_case', 'variance[fermion N,L=3,psi complex site 0]', heavy=True, kind='fermion', conserve='N', L=3, markers=True,
+        cp=[1, 0, 0], cw=False)
+    # ---- MPO algebra
     add('add_case', 'add[spin,L=3,complex]', L=3, DA=3, DB=2)
     add('add_case', 'add[spin,L=2,markers swapped,plus_hc]', L=2, DA=2, DB=3, swapA=True, plus_hc=True)
     add('add_case', 'add[fermion N,L=3,complex]', kind='fermion', conserve='N', L=3)
@@ -457,16 +695,78 @@ def CASES(tier, seed):
     add('dagger_case', 'dagger[fermion N,L=3]', kind='fermion', conserve='N', L=3)
     for hcA, hcB in itertools.product([False, True], repeat=2):
         add('overlap_case', f'overlap[spin,L=2,hcA={hcA},hcB={hcB}]', L=2, hcA=hcA, hcB=hcB)
-    add('overlap_case', 'overlap[spin,L=3,no markers]', L=3, markers=False)
+    add('overlap_case', 'overlap[spin,L=3,no markers]', heavy=True, L=3, DA=2, DB=1, markers=False)
     add('overlap_case', 'overlap[fermion N,L=3]', kind='fermion', conserve='N', L=3)
-    add('overlap_case', 'distance[spin,L=2,real]', L=2, DA=2, DB=2, cplx=False, distance=True)
+    add('overlap_case', 'distance[spin,L=1,real]', L=1, DA=1, DB=1, bd=1, markers=False, cplx=False, distance=True)
+    add('overlap_case', 'distance[spin,L=1,complex]', L=1, DA=1, DB=1, bd=1, markers=False, cplx=True, distance=True)
     add('prefactor_case', 'prefactor[spin,L=3]', L=3, D=3)
     add('prefactor_case', 'prefactor[fermion N,L=3]', kind='fermion', conserve='N', L=3)
-    add('plus_identity_case', 'plus_identity[spin,L=3,sites=[0]]', L=3, D=3, where=[0])
-    add('plus_identity_case', 'plus_identity[spin,L=3,sites=[1],swapped]', L=3, D=3, where=[1], swap=True)
-    add('plus_identity_case', 'plus_identity[spin,L=3,sites=[0,1]]', L=3, D=2, where=[0, 1])
-    add('plus_identity_case', 'plus_identity[fermion N,L=3,sites=[2]]', kind='fermion', conserve='N', L=3, where=[2])
+    add('plus_identity_case', 'plus_identity[spin,L=2,sites=[0]]', L=2, D=3, where=[0])
+    add('plus_identity_case', 'plus_identity[spin,L=2,sites=[1],swapped]', L=2, D=3, where=[1], swap=True)
+    add('plus_identity_case', 'plus_identity[spin,L=2,sites=[0,1]]', L=2, D=3, where=[0, 1])
+    add('plus_identity_case', 'plus_identity[fermion N,L=2,sites=[1]]', kind='fermion', conserve='N', L=2, where=[1], tmpl='hop1')
     add('apply_naively_case', 'apply_naively[spin,L=3,no markers]', L=3, D=2)
     add('apply_naively_case', 'apply_naively[spin,L=2,markers swapped,forms]', L=2, D=3, markers=True, swap=True, forms=['A', 'B'])
     add('apply_naively_case', 'apply_naively[fermion N,L=3]', kind='fermion', conserve='N', L=3, markers=True)
+    # ---- effective Hamiltonians
+    for which, combine, mr in [('one', False, True), ('one', True, True), ('one', True, False), ('two', False, True), ('two', True, True),
+                               ('zero', False, True)]:
+        add('effH_case', f'effH[{which},combine={combine},move_right={mr},spin]', heavy=(which == 'two' and combine), which=which,
+            combine=combine, move_right=mr, i0=(0 if which == 'two' else 1), D=(2 if which == 'two' else 3))
+    add('effH_case', 'effH[two,combine=True,fermion N]', which='two', combine=True, kind='fermion', conserve='N', L=3, i0=1)
+    add('effH_case', 'effH[one,combine=False,fermion N]', which='one', combine=False, move_right=False, kind='fermion', conserve='N', L=3, i0=1)
+    # ---- term lists with symbolic strengths
+    add('termlist_case', 'termlist[spin3,complex strengths]', termset='spin3', cplx=True)
+    add('termlist_case', 'termlist[spin3b,complex strengths,psi]', heavy=True, termset='spin3b', cplx=True, chi=2)
+    add('termlist_case', 'termlist[spin3b,Sz,real,roundtrip]', termset='spin3b', conserve='Sz', roundtrip='spin')
+    add('termlist_case', 'termlist[spin3,real,roundtrip xyz]', termset='spin3', roundtrip='spinxyz')
+    add('termlist_case', 'termlist[fermion3,N,complex strengths,psi]', termset='fermion3', kind='fermion', conserve='N', cplx=True, chi=2)
+    add('termlist_case', 'termlist[fermion3pair,parity,complex]', termset='fermion3pair', kind='fermion', conserve='parity', cplx=True)
+    add('termlist_case', 'termlist[fermion3hop,N,real,roundtrip]', termset='fermion3hop', kind='fermion', conserve='N', roundtrip='fermion')
+    add('termlist_case', 'termlist[spin3b,real,is_hermitian]', termset='spin3b', hermitian=True)
+    if thorough:
+        add('env_case', 'env[spin,L=3,bra and ket all complex,W real,D=2]', heavy=True, L=3, D=2, markers=False, cb=True, ck=True, cw=False,
+            check_env=False)
+        add('env_case', 'env[spin,L=3,complex site 1,D=4,recursion]', heavy=True, L=3, D=4, markers=True, cb=[0, 1, 0], ck=[0, 1, 0],
+            cw=[0, 1, 0])
+        for k in range(4):
+            pat = [int(j == k) for j in range(4)]
+            add('env_case', f'env[spin,L=4,complex site {k},D=2,markers]', heavy=True, L=4, D=2, markers=True, cb=pat, ck=pat[::-1],
+                cw=pat, check_env=(k == 0), forms_b=['A', 'A', 'B', 'B'], forms_k='B', swap=bool(k % 2))
+        add('env_case', 'env[spin,L=4,complex bra site 1,D=2,no markers]', heavy=True, L=4, D=2, markers=False, cb=[0, 1, 0, 0], ck=False,
+            cw=False, check_env=False)
+        add('env_case', 'env[spin,L=4,complex W site 2,D=2,no markers]', heavy=True, L=4, D=2, markers=False, cb=False, ck=False,
+            cw=[0, 0, 1, 0], check_env=False)
+        add('env_case', 'env[fermion N,L=4,bra ket complex,W complex at the ends]', heavy=True, kind='fermion', conserve='N', L=4,
+            markers=True, cb=True, ck=True, cw=[1, 0, 0, 1])
+        add('env_case', 'env[fermion parity,L=3,all complex]', heavy=True, kind='fermion', conserve='parity', L=3, markers=True, cb=True,
+            ck=True, cw=[1, 0, 1])
+        add('expval_case', 'expval[spin,L=3,psi complex,W real]', heavy=True, L=3, D=2, markers=True, cp=True, cw=False)
+        add('expval_case', 'expval[fermion N,L=4,complex]', heavy=True, kind='fermion', conserve='N', L=4, markers=True, cp=True, cw=True)
+        add('variance_case', 'variance[fermion N,L=4,psi complex site 0]', heavy=True, kind='fermion', conserve='N', L=4, markers=True,
+            cp=[1, 0, 0, 0], cw=False)
+        add('variance_case', 'variance[spin,L=2,D=3,markers,psi complex site 1]', heavy=True, L=2, D=3, markers=True, cp=[0, 1], cw=False)
+        add('add_case', 'add[spin,L=4,complex]', heavy=True, L=4, DA=3, DB=3, swapB=True)
+        add('add_case', 'add[fermion N,L=4,complex]', heavy=True, kind='fermion', conserve='N', L=4)
+        add('dagger_case', 'dagger[spin,L=4,D=4]', heavy=True, L=4, D=4, markers=True, swap=True)
+        add('dagger_case', 'dagger[fermion parity,L=3]', kind='fermion', conserve='parity', L=3)
+        add('overlap_case', 'overlap[spin,L=3,markers,hcA]', heavy=True, L=3, DA=3, DB=2, hcA=True)
+        add('prefactor_case', 'prefactor[spin,L=4,swapped]', heavy=True, L=4, D=3, swap=True)
+        add('plus_identity_case', 'plus_identity[spin,L=3,sites=[1],real alpha beta]', heavy=True, L=3, D=3, where=[1], cplx_ab=False)
+        add('plus_identity_case', 'plus_identity[fermion N,L=2,sites=[0,1]]', heavy=True, kind='fermion', conserve='N', L=2, where=[0, 1],
+            tmpl='hop1')
+        add('apply_naively_case', 'apply_naively[spin,L=4,markers]', heavy=True, L=4, D=2, markers=True, cp=[1, 0, 0, 1], cw=[0, 1, 1, 0])
+        add('apply_naively_case', 'apply_naively[fermion N,L=4]', heavy=True, kind='fermion', conserve='N', L=4, markers=True)
+        for which, combine, mr, i0 in [('one', False, False, 0), ('one', True, True, 2), ('two', True, True, 1), ('two', False, True, 2),
+                                       ('zero', False, True, 2), ('zero', False, True, 3)]:
+            add('effH_case', f'effH[{which},combine={combine},move_right={mr},i0={i0},spin L=4]', heavy=True, which=which,
+                combine=combine, move_right=mr, L=4, i0=i0, D=2)
+        add('effH_case', 'effH[two,combine=True,fermion N,L=4]', heavy=True, which='two', combine=True, kind='fermion', conserve='N',
+            L=4, i0=1)
+        add('effH_case', 'effH[one,combine=True,fermion parity]', heavy=True, which='one', combine=True, move_right=False, kind='fermion',
+            conserve='parity', L=3, i0=1)
+        add('termlist_case', 'termlist[spin4,complex strengths]', heavy=True, termset='spin4', cplx=True)
+        add('termlist_case', 'termlist[spin4,real,roundtrip]', heavy=True, termset='spin4', roundtrip='spinxyz')
+        add('termlist_case', 'termlist[fermion4,N,complex strengths,psi]', heavy=True, termset='fermion4', kind='fermion', conserve='N',
+            cplx=True, chi=2)
     return cases
